@@ -13,6 +13,8 @@ import (
 
 	"elaverif/extract/ex"
 	"elaverif/extract/exg"
+
+	"golang.org/x/tools/go/packages"
 )
 
 var consensusPkgs = map[string]bool{"dpos/state": true, "dpos/manager": true, "cr/state": true}
@@ -100,6 +102,64 @@ func main() {
 	}
 	sort.Strings(rows)
 	fmt.Printf("def randSites : List (String × List String × Bool) := [%s]\n", strings.Join(rows, ",\n  "))
+	ex.Comment("EVERY function of the module that mentions a seedable-generator package: (package, function, in a boundary package?, the statements that mention it)")
+	var allSites []string
+	packages.Visit(pkgs, nil, func(pk *packages.Package) {
+		if !strings.HasPrefix(pk.PkgPath, exg.Module) {
+			return
+		}
+		rel := strings.TrimPrefix(strings.TrimPrefix(pk.PkgPath, exg.Module), "/")
+		for _, f := range pk.Syntax {
+			for _, d := range f.Decls {
+				fd, ok := d.(*ast.FuncDecl)
+				if !ok || fd.Body == nil {
+					continue
+				}
+				var stmts []string
+				var visit func(n ast.Node)
+				mentions := func(n ast.Node) bool {
+					found := false
+					ast.Inspect(n, func(x ast.Node) bool {
+						if id, ok := x.(*ast.Ident); ok {
+							if obj := pk.TypesInfo.Uses[id]; obj != nil && obj.Pkg() != nil && exg.Sensitive[obj.Pkg().Path()] {
+								found = true
+							}
+						}
+						return !found
+					})
+					return found
+				}
+				visit = func(n ast.Node) {
+					ast.Inspect(n, func(x ast.Node) bool {
+						switch st := x.(type) {
+						case *ast.AssignStmt, *ast.ExprStmt, *ast.ReturnStmt, *ast.GoStmt, *ast.DeferStmt, *ast.ValueSpec:
+							if mentions(st) {
+								stmts = append(stmts, exg.Src(pk, st))
+								return false
+							}
+						}
+						return true
+					})
+				}
+				visit(fd.Body)
+				if len(stmts) > 0 {
+					name := fd.Name.Name
+					if r := ex.RecvName(fd); r != "" {
+						name = r + "." + name
+					}
+					for i := range stmts {
+						if len(stmts[i]) > 120 {
+							stmts[i] = stmts[i][:120] + "…"
+						}
+					}
+					allSites = append(allSites, fmt.Sprintf("(%s, %s, %v, %s)", ex.LeanStr(rel), ex.LeanStr(name), boundary(rel), ex.StrList(stmts)))
+				}
+			}
+		}
+	})
+	sort.Strings(allSites)
+	fmt.Printf("def allRandSites : List (String × String × Bool × List String) := [\n  %s]\n", strings.Join(allSites, ",\n  "))
+
 	ex.Comment("the `less` functions handed to sort.Slice by getSortedProducers / getSortedProducersDposV2 (source text)")
 	ds := exg.Pkg(pkgs, "dpos/state")
 	for _, fn := range []string{"getSortedProducers", "getSortedProducersDposV2"} {
